@@ -31,6 +31,7 @@ type Q struct {
 	SA, SB  *Q     // binop operands (restricted kinds: id c index iter empty call0)
 	Ps      []Param // def: formal parameters
 	Args    []*Q    // callf: actual parameters
+	NoElse  bool    // if: written without an else clause (e.Else == nil in query.go); C is then `.`
 }
 
 // value parameters (def f($x): ...) are generated when this switch is on (covered by Compile.comp and the theorem)
@@ -91,6 +92,9 @@ func (q *Q) Sexp() string {
 	case "index":
 		return "(index " + q.A.Sexp() + " " + valSexp(q.V) + ")"
 	case "if":
+		if q.NoElse {
+			return "(ifn " + q.A.Sexp() + " " + q.B.Sexp() + ")"
+		}
 		return "(if " + q.A.Sexp() + " " + q.B.Sexp() + " " + q.C.Sexp() + ")"
 	case "try":
 		if q.B != nil {
@@ -232,10 +236,13 @@ func (q *Q) T(r *Rng) string {
 		return "(" + q.A.T(r) + ")" + keyJq(q.V)
 	case "if":
 		s := "if " + q.A.P(r) + " then " + q.B.P(r)
-		e := q.C
-		for e.K == "if" && r.Chance(1, 2) {
+		e, noelse := q.C, q.NoElse
+		for !noelse && e.K == "if" && r.Chance(1, 2) {
 			s += " elif " + e.A.P(r) + " then " + e.B.P(r)
-			e = e.C
+			e, noelse = e.C, e.NoElse
+		}
+		if noelse { // no else clause (also at the end of an elif chain): the value passes through
+			return s + " end"
 		}
 		return s + " else " + e.P(r) + " end"
 	case "try":
@@ -445,6 +452,9 @@ func enum(n int, s scope, r *Rng) []*Q {
 				for _, b := range bs {
 					for _, c := range cs {
 						out = append(out, &Q{K: "if", A: a, B: b, C: c})
+						if c.K == "id" {
+							out = append(out, &Q{K: "if", A: a, B: b, C: c, NoElse: true})
+						}
 					}
 					for _, c := range cvs {
 						out = append(out, &Q{K: "reduce", A: a, N: 0, B: b, C: c}, &Q{K: "foreach", A: a, N: 0, B: b, C: c})
@@ -601,6 +611,9 @@ func randQ(r *Rng, budget int, s scope) *Q {
 	case 6:
 		x, y := split()
 		y1 := 1 + r.Intn(max(1, y))
+		if r.Chance(1, 4) {
+			return &Q{K: "if", A: randQ(r, x, s), B: randQ(r, y, s), C: &Q{K: "id"}, NoElse: true}
+		}
 		return &Q{K: "if", A: randQ(r, x, s), B: randQ(r, y1, s), C: randQ(r, max(1, y-y1), s)}
 	case 7:
 		x, y := split()
@@ -658,7 +671,7 @@ func recProg(r *Rng) *Q {
 	case 8: // tail call in a function whose scope has no variable: optimizeTailRec turns it into a jump
 		body = &Q{K: "if", A: &Q{K: "index", A: id(), V: 0}, B: pipe(&Q{K: "index", A: id(), V: 1}, call), C: id()}
 	case 0: // tail call, a variable of the operator in the function scope: opcallrec
-		body = &Q{K: "if", A: guard, B: step, C: id()}
+		body = &Q{K: "if", A: guard, B: step, C: id(), NoElse: r.Chance(1, 2)}
 	case 1: // tail call, a variable in the function scope: opcallrec
 		v := &Q{K: "var", N: 0}
 		body = &Q{K: "bind", A: id(), N: 0, B: &Q{K: "if", A: bin("lt", v, c(k)), B: pipe(bin("add", v, c(1)), call), C: v}}
